@@ -23,6 +23,7 @@ pub mod c13;
 pub mod c14;
 pub mod c15;
 pub mod c16;
+pub mod c17;
 pub mod c18;
 pub mod c19;
 pub mod c20;
@@ -44,6 +45,7 @@ pub const ALL: &[Prop] = &[
     Prop { id: "C14", run: c14::run, parts: c14::parts },
     Prop { id: "C15", run: c15::run, parts: c15::parts },
     Prop { id: "C16", run: c16::run, parts: c16::parts },
+    Prop { id: "C17", run: c17::run, parts: c17::parts },
     Prop { id: "C18", run: c18::run, parts: c18::parts },
     Prop { id: "C19", run: c19::run, parts: c19::parts },
     Prop { id: "C20", run: c20::run, parts: c20::parts },
